@@ -165,7 +165,7 @@ def cell_1x1(chk, tab, mm, *, variant, mode, delayed, sp, sn, dt, dyadic, d, B, 
         x = torch.tensor([[bool(xs[b][t])] for b in range(B)])
         y = torch.tensor([[bool(ys[b][t])] for b in range(B)])
         unit = rng.choice([1.0, 0.7]) if three and not dyadic else 1.0
-        scale = rng.choice([1.0, 0.5]) if three else 1.0
+        scale = rng.choice([1.0, 0.5, -0.5]) if three else 1.0      # documented: the absolute value of the scale is used
         if three and persample:
             rs = [rng.choice(RTOK) for _ in range(B)]
             # (whole-number rewards also as an INTEGER tensor, e.g. +-1 straight from torch.randint: the scale stays fractional)
@@ -182,7 +182,7 @@ def cell_1x1(chk, tab, mm, *, variant, mode, delayed, sp, sn, dt, dyadic, d, B, 
             mm.add(dict(sig, clause="Raised", where="step", exc=type(e).__name__),
                    {"hdr": hdr, "pre": xs, "post": ys, "steps": steps, "t": t, "error": repr(e)})
             return edges
-        P = stdp_params(dict(hp, scale=unit * scale), dt)
+        P = stdp_params(dict(hp, scale=unit * abs(scale)), dt)
         ep = en = 0.0
         for b in range(B):
             bag = expected(tab, rule, mode, dd, xs[b], ys[b], t, rs[b])
